@@ -46,6 +46,7 @@ func foldableType(t types.Type, depth int) bool {
 
 var readOnlyCallees = map[string]bool{
 	"bytes.Equal": true, "bytes.Compare": true, "bytes.HasPrefix": true, "bytes.Contains": true, "slices.Contains": true,
+	"slices.ContainsFunc": true, "slices.IndexFunc": true, "slices.BinarySearch": true, "slices.BinarySearchFunc": true, "slices.Max": true, "slices.Min": true, "slices.Clone": true,
 	"slices.Index": true, "slices.Equal": true, "strings.Contains": true, "strings.HasPrefix": true, "strings.EqualFold": true,
 	"strings.Join": true, "fmt.Sprintf": true, "fmt.Errorf": true, "bcd.Decode": true,
 	"(*strings.Builder).Write": true, "(*bytes.Buffer).Write": true, "(*strings.Builder).WriteString": true, "(*bytes.Buffer).WriteString": true,
@@ -147,7 +148,14 @@ func valueReadOnly(v ssa.Value, depth int) bool {
 				return false
 			}
 			f := c.StaticCallee()
-			if f == nil || !readOnlyCallees[calleeName(f)] {
+			if f == nil {
+				return false
+			}
+			g := f
+			if f.Origin() != nil {
+				g = f.Origin() // slices.Contains[[]uint32,uint32] is slices.Contains
+			}
+			if !readOnlyCallees[calleeName(f)] && !readOnlyCallees[calleeName(g)] {
 				return false
 			}
 		default:
